@@ -81,6 +81,40 @@ def fold_accumulators(fx, res):
     return out
 
 
+def operand_field(fx, fid, ob, which):
+    """(ADT short name, field) of the struct field an operand of an Assert obligation was read from, however the access
+    is spelled (through `self.a.b.c`, a `&mut` alias, an iterator item, ...); None when the operand is not a plain field read"""
+    body = body_of(fx.fns[fid])
+    b = ob.get("block")
+    if body is None or b is None:
+        return None
+    t = body.term(b)
+    msg = t.get("msg") or {}
+    op = msg.get(which)
+    if op is None:
+        return None
+    pl = op_place(op)
+    for _ in range(6):
+        if pl is None:
+            return None
+        flds = [x for x in pl["p"] if isinstance(x, dict) and "f" in x and x.get("adt")]
+        if flds:
+            return (short(flds[-1]["adt"]), flds[-1]["f"])
+        if pl["p"] and any(x != "deref" for x in pl["p"]):
+            return None
+        sd = body.single_def(pl["l"])
+        if sd is None or sd[2] != "assign":
+            return None
+        rv = sd[3]
+        if rv["k"] in ("use", "cast"):
+            pl = op_place(rv["a"])
+        elif rv["k"] == "ref":
+            pl = rv["place"]
+        else:
+            return None
+    return None
+
+
 def sum64(fx, fid, ob):
     """D-SUM64: a 64-bit accumulator that starts at a constant < 2^32 and is only ever advanced, inside one `for` loop over a
     Range<u32> (at most 2^32 iterations), by this addition of a value widened from 32 bits: it stays below 2^32 + 2^32 * (2^32 - 1)
